@@ -386,7 +386,8 @@ def extremes_campaign(sess, rng, count, kinds=KINDS, ops=("rate", "win", "draw",
             team = []
             for _j in range(sz):
                 mu = {"hi": 20 * beta * u, "lo": -20 * beta * u, "zero": 0.0, "mixed": rng.choice([-20, 20, 0]) * beta}[pat]
-                sg = sgc * beta if (rng.random() < 0.8 or 0.24 <= scenario < 0.36) else pick_sigma(rng, beta, tau > 0)
+                # (the corner scenarios keep every member at the corner: one ordinary sigma among 16 players undoes the corner)
+                sg = sgc * beta if (rng.random() < 0.8 or scenario < 0.12 or 0.24 <= scenario < 0.36) else pick_sigma(rng, beta, tau > 0)
                 team.append(mh.m.rating(mu, sg))
             teams.append(team)
             tot.append(sum(p.mu for p in team))
@@ -2048,15 +2049,18 @@ def thread_executions_fine(sess, rng, count, thread_log, kinds=("TMF", "TMP", "P
             n = len(shape)
             style = ci % 3
             if style == 0:
-                ranks = [0] * n if rng.random() < 0.6 else weak_order(rng, n)      # ties: the draw kernels
+                # ties: the draw kernels (in both calls for the first cases: whatever one call's tie leaves behind for the other's)
+                ranks = [0] * n if (ci < 6 or rng.random() < 0.6) else weak_order(rng, n)
                 kw = {"ranks": ranks}
             else:
                 # strict outcomes that sort the two games differently (whatever one call leaves behind for the sort,
                 # the pairing or the un-sorting is wrong for the other)
                 order = list(range(n))
-                while order == sorted(order) or (t == 1 and n == len(calls[0]["kw"].get("ranks", calls[0]["kw"].get("scores"))) and
+                tries = 0
+                while order == sorted(order) or (tries < 40 and t == 1 and n == len(calls[0]["kw"].get("ranks", calls[0]["kw"].get("scores"))) and
                                                  order == [int(v) for v in calls[0]["kw"].get("ranks", calls[0]["kw"].get("scores"))]):
                     rng.shuffle(order)
+                    tries += 1      # (two two-team games have only one unsorted order: then both sort alike)
                 kw = {"ranks": [float(v) for v in order]} if style == 1 else {"scores": [float(v) for v in order]}
             if rng.random() < 0.3:
                 kw["limit_sigma"] = True
